@@ -114,7 +114,11 @@ pub fn builtin_function<NumericTypes: EvalexprNumericTypes>(
             .into())
         })),
         "min" => Some(Function::new(|argument| {
-            let arguments = argument.as_tuple()?;
+            // A single argument is passed as it is, several arguments are passed as a tuple
+            let arguments = match argument {
+                Value::Tuple(tuple) => tuple.clone(),
+                number => vec![number.clone()],
+            };
             let mut min_int: Option<NumericTypes::Int> = None;
             let mut min_float: Option<NumericTypes::Float> = None;
 
@@ -149,7 +153,11 @@ pub fn builtin_function<NumericTypes: EvalexprNumericTypes>(
             }
         })),
         "max" => Some(Function::new(|argument| {
-            let arguments = argument.as_tuple()?;
+            // A single argument is passed as it is, several arguments are passed as a tuple
+            let arguments = match argument {
+                Value::Tuple(tuple) => tuple.clone(),
+                number => vec![number.clone()],
+            };
             let mut max_int: Option<NumericTypes::Int> = None;
             let mut max_float: Option<NumericTypes::Float> = None;
 
